@@ -1,4 +1,5 @@
 mod c17;
+mod c18;
 mod c19;
 #[path = "../../etfmc/src/denote.rs"]
 #[allow(dead_code)]
@@ -21,6 +22,11 @@ fn main() {
         "c19" => {
             let rep = Report::new("C19", "model_checking");
             let cov = c19::run(&rep);
+            rep.finish(cov)
+        }
+        "c18" => {
+            let rep = Report::new("C18", "model_checking");
+            let cov = c18::run(&rep);
             rep.finish(cov)
         }
         _ => {
